@@ -46,7 +46,7 @@ def subst(v, o):
         return b[0] if len(b) == 1 else '<no baseline %s>' % v
     if v == 'CUSTOM':
         return 'custom-computed'
-    return v.replace('PEER', '127.0.0.1')
+    return v.replace('PEER', o.get('peer') or '127.0.0.1')
 
 
 def brief(req):
